@@ -60,13 +60,14 @@ POOLS = {
     "intfloat": ["0.0", "1.0", "-2.0", "3.0", "1e10"],
     "bool": ["True", "False"],
     "text": ["'a'", "'hello world'", "'xyz'", "'ß'", "'x y'", "'foo'"],
-    "floatstr": ["'1.5'", "'0.25'", "'-2.5'", "'1e5'", "'3.'", "'.5'"],
+    "floatstr": ["'1.5'", "'0.25'", "'-2.5'", "'1.5e-1'", "'3.75'", "'.5'"],
     "intstr": ["'1'", "'2'", "'-3'", "'10'", "'0'"],
     "intfloatstr": ["'1.0'", "'2.0'", "'-3.0'"],
     "boolstr": ["'True'", "'false'", "'TRUE'", "'False'"],
-    "ynstr": ["'yes'", "'No'", "'Y'", "'n'"],
+    "ynstr": ["'yes'", "'No'", "'YES'", "'no'"],
+    "ynstr1": ["'Y'", "'n'", "'y'", "'N'"],
     "complex": ["(1+2j)", "(0.5-1j)", "3j"],
-    "zimcomplex": ["(1+0j)", "(2.5+0j)", "(-3+0j)"],
+    "zimcomplex": ["(1.5+0j)", "(2.5+0j)", "(-3.25+0j)"],
     "complexstr": ["'1+2j'", "'0.5-1j'", "'3j'"],
     "datetime": ["pd.Timestamp('2020-01-01 12:30:00')", "pd.Timestamp('1999-12-31 23:59:59')", "pd.Timestamp('2021-06-15 01:02:03')"],
     "pydatetime": ["datetime.datetime(2020, 1, 1, 12, 30)", "datetime.datetime(1999, 12, 31, 23, 59)"],
@@ -79,7 +80,8 @@ POOLS = {
     "url": ["urlparse('http://www.cwi.nl:80/%7Eguido/Python.html')", "urlparse('https://github.com/x/y')"],
     "urlstr": ["'http://www.cwi.nl:80/%7Eguido/Python.html'", "'https://github.com/x/y'", "'ftp://a.b/c'"],
     "path": ["pathlib.PurePosixPath('/home/user/file.txt')", "pathlib.PureWindowsPath('C:\\\\Users\\\\x.txt')", "pathlib.PurePosixPath('/tmp')"],
-    "pathstr": ["'/home/user/file.txt'", "'/usr/bin'", "'C:\\\\Users\\\\x.txt'"],
+    "pathstr": ["'/home/user/file.txt'", "'/usr/bin'", "'/tmp/x y'"],
+    "winpathstr": ["'C:\\\\Users\\\\x.txt'", "'D:\\\\data'"],
     "ip": ["ipaddress.ip_address('127.0.0.1')", "ipaddress.ip_address('::1')", "ipaddress.ip_address('8.8.8.8')"],
     "ipstr": ["'127.0.0.1'", "'::1'", "'8.8.8.8'"],
     "uuid": ["uuid.UUID('0b8a22ca-80ad-4df5-85ac-fa49c44b7ede')", "uuid.UUID('aaa381d6-8442-4f63-88c8-7c900e9a23c6')"],
@@ -99,10 +101,16 @@ ENCODINGS = [
     ("Integer", "intfloat", ["None", "'float32'", "'float64'", "'Float32'", "'Float64'"]),
     ("Integer", "intfloatstr", ["None", "object", "'string'"]),
     ("Float", "float", ["None", "'float64'", "'Float64'"]),
+    ("Integer", "int", ["object"]),
+    ("Float", "float", ["object"]),
+    ("Complex", "complex", ["object"]),
+    ("DateTime", "datetime", ["object"]),
+    ("TimeDelta", "timedelta", ["object"]),
     ("Float", "floatstr", ["None", "object", "'string'"]),
     ("Boolean", "bool", ["None", "'bool'", "'boolean'", "object"]),
     ("Boolean", "boolstr", ["None", "object", "'string'"]),
     ("Boolean", "ynstr", ["None", "object"]),
+    ("Boolean", "ynstr1", ["None", "object"]),
     ("String", "text", ["None", "object", "'string'", "'str'"]),
     ("Complex", "complex", ["None", "'complex64'", "'complex128'"]),
     ("Complex", "complexstr", ["None", "object"]),
@@ -122,6 +130,7 @@ ENCODINGS = [
     ("URL", "urlstr", ["None", "object"]),
     ("Path", "path", ["None", "object"]),
     ("Path", "pathstr", ["None"]),
+    ("Path", "winpathstr", ["None"]),
     ("IPAddress", "ip", ["None", "object"]),
     ("IPAddress", "ipstr", ["None"]),
     ("UUID", "uuid", ["None", "object"]),
@@ -145,9 +154,21 @@ def series_recipe(values, dtype="None", index="None", name="None"):
     return f"pd.Series([{', '.join(values)}]{dt}{idx}{nm})"
 
 
-def null_ok(dtype, null):
+NUMERIC_POOLS = ("int", "count", "float", "intfloat", "bool", "complex", "zimcomplex")
+TIME_POOLS = ("datetime", "pydatetime", "middatetime", "timedelta")
+
+
+def null_ok(dtype, null, pool=None):
+    """can this missing-value sentinel sit in a column of this pool/dtype without changing what the
+    column IS (pd.NaT in a column of complex numbers makes it a column of mixed objects)"""
     if dtype in ("'int8'", "'int16'", "'int32'", "'int64'", "'uint8'", "'uint16'", "'uint32'", "'uint64'", "'bool'"):
         return False
+    if pool in NUMERIC_POOLS and dtype == "None" and null in ("pd.NaT", "pd.NA"):
+        return False
+    if pool in TIME_POOLS and dtype == "None" and null == "pd.NA":
+        return False
+    if pool in ("bool",) and dtype == "None" and null == "nan":
+        return True
     return True
 
 
@@ -161,7 +182,7 @@ def family_stream(rnd, n, lengths=(1, 2, 3, 5, 6, 7)):
         vals = [rnd.choice(POOLS[pool]) for _ in range(k)]
         nullmode = rnd.choice(["none", "none", "first", "middle", "last", "allbutone"])
         null = rnd.choice(NULLS)
-        if nullmode != "none" and null_ok(dtype, null):
+        if nullmode != "none" and null_ok(dtype, null, pool):
             if nullmode == "first":
                 vals = [null] + vals
             elif nullmode == "last":
